@@ -47,6 +47,11 @@ def cv(x):
     return str(fr.numerator) if fr.denominator == 1 else f'{fr.numerator}/{fr.denominator}'
 
 
+def scal(r):
+    """ canonical token of a reduction result that ought to be a scalar """
+    return cv(r) if np.ndim(r) == 0 and not hasattr(r, 'raw') else f'<{type(r).__name__} of length {len(r)}>'
+
+
 def tok(v):
     """ token of a JSON case value (float/int/bool/'nan') """
     if v == 'nan':
@@ -81,11 +86,35 @@ def truthy(t):
     return fractions.Fraction(t) != 0
 
 
+def cast_tok(t, tokv):
+    """ what a cell of an array of type t holds after `raw[...] = value` (NumPy casting); None = refused """
+    if t in ('bool', 'state'):
+        return 'T' if truthy(tokv) else 'F'
+    if t == 'float':
+        if tokv == 'nan': return 'nan'
+        x = num_of(tokv)
+        return str(x.numerator) if x.denominator == 1 else f'{x.numerator}/{x.denominator}'
+    if tokv == 'nan': return None
+    x = num_of(tokv)
+    return str(int(x))     # int(Fraction) truncates toward zero
+
+
+ARITH = dict(add=lambda a, b: a + b, sub=lambda a, b: a - b, mul=lambda a, b: a * b)
+
+
+def arith_tok(op, a, b):
+    x, y = num_of(a), num_of(b)
+    if x is None or y is None: return 'nan'
+    r = ARITH[op](x, y)
+    return str(r.numerator) if r.denominator == 1 else f'{r.numerator}/{r.denominator}'
+
+
 def err_kind(e):
     import starsim as ss
     if isinstance(e, ss.arrays.BooleanOperationError): return 'E:BoolOp'
     if isinstance(e, IndexError): return 'E:Index'
     if isinstance(e, ValueError): return 'E:Value'
+    if isinstance(e, TypeError) and 'int() argument' in str(e): return 'E:Value'
     if type(e) is Exception and 'ambiguous' in str(e): return 'E:Ambiguous'
     if isinstance(e, TypeError) and "has no len" in str(e): return 'E:Ambiguous'
     return f'E:Other:{type(e).__name__}'
@@ -199,6 +228,21 @@ class Real:
         if k == 'cmparr': return getattr(A[e[1]], CMPS[e[2]])(A[e[3]])
         if k == 'not': return ~A[e[1]]
         if k == 'notcmp': return ~getattr(A[e[1]], CMPS[e[2]])(pyval(e[3]))
+        if k == 'isnan': return A[e[1]].isnan
+        if k == 'notnan': return A[e[1]].notnan
+        if k == 'arith':
+            a = A[e[1]]; v = pyval(e[3])
+            how = e[4] if len(e) > 4 else 'op'
+            if how == 'np': return dict(add=np.add, sub=np.subtract, mul=np.multiply)[e[2]](a, v)
+            if how == 'rop': return v + a if e[2] == 'add' else (v * a if e[2] == 'mul' else -(v - a))
+            return a + v if e[2] == 'add' else (a - v if e[2] == 'sub' else a * v)
+        if k == 'aritharr':
+            a = A[e[1]]; b = A[e[3]]
+            return a + b if e[2] == 'add' else (a - b if e[2] == 'sub' else a * b)
+        if k == 'cmparith':
+            a = A[e[1]]; v = pyval(e[3])
+            r = a + v if e[2] == 'add' else (a - v if e[2] == 'sub' else a * v)
+            return getattr(r, CMPS[e[4]])(pyval(e[5]))
         if k in ('logic', 'logics'):
             a = A[e[1]]; b = A[e[3]] if k == 'logic' else pyval(e[3])
             return a & b if e[2] == 'and' else (a | b if e[2] == 'or' else a ^ b)
@@ -208,6 +252,7 @@ class Real:
         ss = self.ss
         t = k[0]
         if t == 'uids': return ss.uids(np.array(k[1], dtype=np.int64))
+        if t == 'ruids': return ss.uids(np.array(k[1], dtype=np.int64))
         if t == 'int': return int(k[1]) if k[2] == 'py' else np.int64(k[1])
         if t == 'slice': return slice(k[1], k[2], k[3])
         if t == 'bool': return self.expr(k[1])
@@ -245,6 +290,39 @@ class Real:
                 return dict(st='ok', vals=[cv(x) for x in r.values], true=[int(u) for u in r.true()], false=[int(u) for u in r.false()],
                             raw=[cv(x) for x in np.asarray(r.raw)], cls=type(r).__name__,
                             uids=[int(u) for u in r.uids] if hasattr(r, 'uids') and isinstance(r, ss.BoolArr) else None)
+            if o == 'copy':
+                # continue on a deep copy of the whole sim (the copy protocol every Arr goes through when a sim is copied / saved)
+                import sciris as sc
+                sim = sc.dcp(self.sim)
+                mod = sim.demographics[0]
+                late = {id(a): nm for nm, a in self.arrs.items()}
+                old_states = list(self.people._states.values()); new_states = list(sim.people._states.values())
+                remap = {id(o_): n_ for o_, n_ in zip(old_states, new_states)}
+                self.arrs = {nm: (sim.people.uid if nm == 'uid' else sim.people.slot if nm == 'slot' else remap[id(a)]) for nm, a in self.arrs.items()}
+                self.sim = sim; self.people = sim.people
+                for nm, a in self.arrs.items():
+                    if self.specs[nm]['default'][0] == 'dist':
+                        a.default.__dict__.pop('rvs', None)
+                        self._wrap_dist(nm, a)
+                return dict(st='ok', state=self.state())
+            if o == 'notnanvals':
+                return dict(st='ok', vals=[cv(x) for x in self.arrs[op[1]].notnanvals])
+            if o == 'iter':
+                a = self.arrs[op[1]]
+                return dict(st='ok', vals=[cv(x) for x in (list(a) if op[2] == 'iter' else [x for x in a.values])], has=[bool(x in a) for x in op[3]])
+            if o == 'split':
+                r = self.expr(op[1])
+                t, f = r.split()
+                return dict(st='ok', true=[int(u) for u in t], false=[int(u) for u in f], cls=[type(t).__name__, type(f).__name__],
+                            conv=[int(u) for u in ss.uids(r)])
+            if o == 'setnan':
+                self.arrs[op[1]].set_nan(ss.uids(np.array(op[2], dtype=np.int64)))
+                return dict(st='ok', arr=self.arr_state(op[1]))
+            if o == 'usetb':
+                a = ss.uids(np.array(op[2], dtype=np.int64)); b = self.expr(op[3]); f = op[1]
+                if op[4] == 'op': r = {'remove': lambda: a - b, 'intersect': lambda: a & b, 'union': lambda: a | b, 'xor': lambda: a ^ b}[f]()
+                else: r = getattr(a, f)(b)
+                return dict(st='ok', uids=[int(u) for u in r], cls=type(r).__name__)
             if o == 'reduce':
                 a = self.arrs[op[1]]
                 n = len(a)
@@ -253,7 +331,8 @@ class Real:
                     except ValueError: return 'none'
                 return dict(st='ok', len=n, count=int(a.count()), sum=cv(a.sum()), mean=(cv(a.mean()) if n else 'none'),
                             min=safe(a.min), max=safe(a.max), any=int(bool(a.any())), all=int(bool(a.all())),
-                            nplen=int(len(a.values)), npcount=int(np.count_nonzero(a)))
+                            nplen=int(len(a.values)), npcount=int(np.count_nonzero(a)),
+                            npsum=cv(np.sum(a)), npmin=safe(lambda: np.min(a)), npmax=safe(lambda: np.max(a)), addreduce=scal(np.add.reduce(a)))
             if o == 'uset':
                 a = ss.uids(np.array(op[2], dtype=np.int64)); b = ss.uids(np.array(op[3], dtype=np.int64))
                 f = op[1]
@@ -304,6 +383,12 @@ class Real:
             return f'set code {op[1]} {key_str(op[2])} {rs}'
         if o == 'view': return 'view ' + expr_str(op[1])
         if o == 'reduce': return f'reduce {op[1]}'
+        if o == 'copy': return 'state'
+        if o == 'notnanvals': return f'notnanvals {op[1]}'
+        if o == 'iter': return f'iter {op[1]}'
+        if o == 'split': return 'split ' + expr_str(op[1])
+        if o == 'setnan': return f'setnan {op[1]} {nats(op[2])}'
+        if o == 'usetb': return f'usetb {op[1]} {nats(op[2])} ' + expr_str(op[3])
         if o == 'uset': return f'uset {op[1]} {nats(op[2])} {nats(op[3])}'
         if o == 'ucat': return 'ucat ' + ' '.join(nats(l) for l in op[1])
         if o == 'late':
@@ -319,12 +404,17 @@ def expr_str(e):
     if k in ('cmp', 'notcmp', 'logics'): return f'{k} {e[1]} {e[2]} {tok(e[3])}'
     if k in ('cmparr', 'logic'): return f'{k} {e[1]} {e[2]} {e[3]}'
     if k == 'not': return f'not {e[1]}'
+    if k in ('isnan', 'notnan'): return f'{k} {e[1]}'
+    if k == 'arith': return f'arith {e[1]} {e[2]} {tok(e[3])}'
+    if k == 'aritharr': return f'aritharr {e[1]} {e[2]} {e[3]}'
+    if k == 'cmparith': return f'cmparith {e[1]} {e[2]} {tok(e[3])} {e[4]} {tok(e[5])}'
     raise ValueError(e)
 
 
 def key_str(k):
     t = k[0]
     if t == 'uids': return f'uids {nats(k[1])}'
+    if t == 'ruids': return 'ruids ' + ','.join(str(int(x)) for x in k[1])
     if t == 'int': return f'int {k[1]}'
     if t == 'slice': return 'slice ' + ' '.join('none' if x is None else str(x) for x in k[1:4])
     if t == 'bool': return 'bool ' + expr_str(k[1])
@@ -354,7 +444,16 @@ def gen_case_header(rng):
     return dict(n0=n0, arrays=arrays, seed=rng.randint(0, 999), ops=[])
 
 
-def rand_val(rng, t, allow_nan=True):
+def rand_any(rng, t):
+    """ a value of ANOTHER dtype than the array's: exercises NumPy's casting on assignment """
+    pool = [True, False, 2.5, -2.5, 0.75, 0.0, 3, -1, 'nan']
+    if t == 'float': pool = [True, False, 3, -1, 0]
+    return rng.choice(pool)
+
+
+def rand_val(rng, t, allow_nan=True, cross=0.0):
+    if cross and rng.random() < cross:
+        return rand_any(rng, t)
     if t == 'float':
         if allow_nan and rng.random() < 0.08: return 'nan'
         return rng.randint(-16, 16) / 4
@@ -368,9 +467,23 @@ def gen_expr(rng, w, boolish_only=False):
     """ a derived-array expression over the registered arrays """
     names = [n for n in w.order if n not in ('uid', 'slot')]
     bools = [n for n in names if w.specs[n]['type'] in ('bool', 'state')]
+    nice = [n for n in names if w.specs[n]['type'] in ('float', 'int') and w.specs[n]['default'][0] != 'dist']
     r = rng.random()
     nm = rng.choice(names + ['uid', 'slot'])
     t = w.specs[nm]['type']
+    q = rng.random()
+    if q < 0.10:
+        return [rng.choice(['isnan', 'notnan']), nm]
+    if q < 0.22 and nice and not boolish_only:
+        a = rng.choice(nice); ta = w.specs[a]['type']
+        op = rng.choice(['add', 'sub', 'mul'])
+        v = rng.choice([2, -1, 0.5, 0, 3]) if op == 'mul' else rng.randint(-8, 8) / 4
+        z = rng.random()
+        if z < 0.45: return ['arith', a, op, v, rng.choice(['op', 'np', 'rop'])]
+        if z < 0.7:
+            same = [n for n in nice if w.specs[n]['type'] == ta]
+            return ['aritharr', a, op, rng.choice(same)]
+        return ['cmparith', a, op, v, rng.choice(list(CMPS)), rand_val(rng, ta, allow_nan=False)]
     if r < 0.35:
         return ['cmp', nm, rng.choice(list(CMPS)), rand_val(rng, t)]
     if r < 0.45:
@@ -414,7 +527,11 @@ def gen_key(rng, w):
     p = w.people
     tot = int(p.uid.len_tot); na = len(p.auids)
     r = rng.random()
-    if r < 0.30: return ['uids', gen_uid_list(rng, w)]
+    if r < 0.26: return ['uids', gen_uid_list(rng, w)]
+    if r < 0.30:
+        l = [rng.randint(-tot - 1, tot) for _ in range(rng.randint(1, 3))]       # a uid array with negative entries: NumPy wraps
+        if rng.random() < 0.7: l = [max(min(x, tot - 1), -tot) for x in l]
+        return ['ruids', l]
     if r < 0.45: return ['int', rng.randint(-tot - 1, tot), rng.choice(['py', 'np'])]
     if r < 0.62:
         def b(): return rng.choice([None, None, rng.randint(-na - 2, na + 2)])
@@ -431,6 +548,8 @@ def gen_op(rng, w):
     au = [int(u) for u in p.auids]
     names = [nm for nm in w.order if nm != 'uid']
     r = rng.random()
+    if r < 0.015:
+        return ['copy']
     if r < 0.12:
         spare = tot - n
         k = rng.choice([spare, spare + 1, 1, 1, 2, tot // 2, tot // 2 + 1, max(spare - 1, 0), 0, 3])
@@ -449,8 +568,9 @@ def gen_op(rng, w):
     if r < 0.58:
         nm = rng.choice(names); t = w.specs[nm]['type']
         key = gen_key(rng, w)
+        intlike = t in ('int', 'index')
         if rng.random() < 0.5 or key[0] == 'int':      # an int key takes a scalar (NumPy's element-from-sequence casting is not modelled)
-            rhs = ['scalar', rand_val(rng, t)]
+            rhs = ['scalar', rand_val(rng, t, cross=0.3)]
         else:
             # a list of the right length most of the time: the length needs the key's size -> ask the real key
             try:
@@ -461,16 +581,31 @@ def gen_op(rng, w):
             q = rng.random()
             if q < 0.12: ln = ln + 1
             elif q < 0.2: ln = 1
-            rhs = ['list', [rand_val(rng, t) for _ in range(ln)]]
+            vals = [rand_val(rng, t, cross=0.3) for _ in range(ln)]
+            if intlike: vals = [0 if v == 'nan' else v for v in vals]      # NaN inside a list cast to int64 is undefined in NumPy
+            rhs = ['list', vals]
         return ['set', nm, key, rhs]
-    if r < 0.74:
+    if r < 0.70:
         return ['view', gen_expr(rng, w)]
+    if r < 0.74:
+        q = rng.random()
+        floats = [nm for nm in w.order if w.specs[nm]['type'] == 'float']
+        if q < 0.3 and floats: return ['notnanvals', rng.choice(floats)]
+        if q < 0.55: return ['split', gen_expr(rng, w, boolish_only=True)]
+        if q < 0.8:
+            nm = rng.choice(w.order)
+            return ['iter', nm, rng.choice(['iter', 'values']), [rand_val(rng, w.specs[nm]['type'], allow_nan=False) for _ in range(2)]]
+        nm = rng.choice(names)
+        return ['setnan', nm, gen_uid_list(rng, w)]
     if r < 0.84:
         return ['reduce', rng.choice(w.order)]
     if r < 0.94:
         def ul(): return [rng.randint(0, 12) for _ in range(rng.choice([0, 1, 2, 3, 5, 8]))]
         if rng.random() < 0.2:
             return ['ucat', [ul() for _ in range(rng.randint(2, 4))], rng.choice(['args', 'list'])]
+        if rng.random() < 0.3:
+            ua = [rng.randrange(max(n, 1)) for _ in range(rng.choice([0, 2, 4, 7]))]       # repeats likely
+            return ['usetb', rng.choice(['remove', 'intersect', 'union', 'xor']), ua, gen_expr(rng, w, boolish_only=True), rng.choice(['op', 'method'])]
         return ['uset', rng.choice(['concat', 'remove', 'intersect', 'union', 'xor', 'unique']), ul(), ul(), rng.choice(['op', 'method'])]
     if len(w.order) < 10 and len(au) == n:      # registration after removals is C10's business (it is mis-sized / refused)
         t = rng.choice(TYPES)
@@ -525,7 +660,7 @@ def compare(op, obs, ml):
     if obs['st'] != 'ok': return None
     o = op[0]
     f = m['fields']
-    if o in ('grow', 'remove'):
+    if o in ('grow', 'remove', 'copy'):
         s = obs['state']
         if str(s['n']) != f['n']: return f"n: impl={s['n']} model={f['n']}"
         if nats(s['au']) != f['au']: return f"auids: impl={nats(s['au'])} model={f['au']}"
@@ -555,6 +690,17 @@ def compare(op, obs, ml):
         if not cmp_cells(lst(f['raw']), obs['raw']): return f"derived storage impl={toks(obs['raw'])} model={f['raw']}"
         if op[1][0] != 'arr' and obs['cls'] != 'BoolArr' and op[1][0] in ('cmp', 'cmparr', 'notcmp'): return f"comparison returned {obs['cls']}"
         return None
+    if o in ('notnanvals', 'iter'):
+        return None if cmp_cells(lst(f['vals']), obs['vals']) else f"{o}: impl={toks(obs['vals'])} model={f['vals']}"
+    if o == 'split':
+        if nats(obs['true']) != f['true'] or nats(obs['false']) != f['false']:
+            return f"split(): impl=({nats(obs['true'])} | {nats(obs['false'])}) model=({f['true']} | {f['false']})"
+        if nats(obs['conv']) != f['true']: return f"ss.uids(boolarr) impl={nats(obs['conv'])} model={f['true']}"
+        return None
+    if o == 'setnan':
+        lu, lt, raw = obs['arr']; mlu, mlt, mraw = m['arrays'][op[1]]
+        if (lu, lt) != (mlu, mlt) or not cmp_cells(mraw, raw): return f'{op[1]}: storage impl={toks(raw)} model={toks(mraw)}'
+        return None
     if o == 'reduce':
         for k in ('len', 'count', 'any', 'all'):
             if str(obs[k]) != f[k]: return f'{k}: impl={obs[k]} model={f[k]}'
@@ -572,7 +718,7 @@ def compare(op, obs, ml):
             elif a != b: return f'{k}: impl={obs[k]} model={f[k]}'
         if not close32(f['mean'], obs['mean']): return f"mean: impl={obs['mean']} model={f['mean']}"
         return None
-    if o in ('uset', 'ucat'):
+    if o in ('uset', 'ucat', 'usetb'):
         mu = m.get('bare', ['-'])[0] if m.get('bare') else '-'
         if nats(obs['uids']) != mu: return f"uids impl={nats(obs['uids'])} model={mu}"
         if obs['cls'] != 'uids': return f"result class {obs['cls']}"
@@ -580,7 +726,7 @@ def compare(op, obs, ml):
     return f'unknown op {o}'
 
 
-def run_sequence(rng, nops, header=None):
+def run_sequence(rng, nops, header=None, fixed_ops=None):
     """ generate + execute one sequence on the real code; returns (case, lines, [(op, obs)]) """
     case = header or gen_case_header(rng)
     w = Real(case)
@@ -588,8 +734,9 @@ def run_sequence(rng, nops, header=None):
     pre = len(lines)
     st0 = w.state()
     log = []
-    for _ in range(nops):
-        op = gen_op(rng, w)
+    todo = list(fixed_ops) if fixed_ops is not None else [None] * nops
+    for fop in todo:
+        op = fop if fop is not None else gen_op(rng, w)
         obs = w.exec(op)
         case['ops'].append(op)
         lines.append(w.line(op, obs))
@@ -623,9 +770,13 @@ def correspond(ctx):
     nseq = ctx.budget(150, 1200)
     nops = 36
     all_lines = []; per = []
-    for k in range(nseq):
+    for k in range(nseq + len(FIXED_SCENARIOS)):
         try:
-            case, lines, log, pre, st0, w = run_sequence(ctx.rng, nops)
+            if k < len(FIXED_SCENARIOS):
+                sc = FIXED_SCENARIOS[k]
+                case, lines, log, pre, st0, w = run_sequence(ctx.rng, 0, header=dict(sc, ops=[]), fixed_ops=[list(o) for o in sc['ops']])
+            else:
+                case, lines, log, pre, st0, w = run_sequence(ctx.rng, nops)
         except Exception as e:
             import traceback
             ctx.broke('correspondence', 'C11.opseq', f'implementation harness raised {type(e).__name__}: {e}\n{traceback.format_exc()[-1500:]}')
@@ -711,6 +862,14 @@ class Ref:
         if k == 'not':
             if not isbool(e[1]): raise BoolOp()
             return ['F' if truthy(v) else 'T' for v in self.vals(e[1])]
+        if k in ('isnan', 'notnan'):
+            t = self.specs[e[1]]['type']
+            nanv = {'float': 'nan', 'int': '-9', 'index': '-1'}.get(t)
+            isn = [(v == nanv) if nanv is not None else False for v in self.vals(e[1])]
+            return ['T' if (x if k == 'isnan' else not x) else 'F' for x in isn]
+        if k == 'arith': return [arith_tok(e[2], v, tok(e[3])) for v in self.vals(e[1])]
+        if k == 'aritharr': return [arith_tok(e[2], a, b) for a, b in zip(self.vals(e[1]), self.vals(e[3]))]
+        if k == 'cmparith': return ['T' if cmp1(e[4], arith_tok(e[2], v, tok(e[3])), tok(e[5])) else 'F' for v in self.vals(e[1])]
         if k in ('logic', 'logics'):
             if not isbool(e[1]): raise BoolOp()
             a = [truthy(v) for v in self.vals(e[1])]
@@ -724,6 +883,8 @@ class Ref:
         t = key[0]
         if t == 'uids':
             return list(key[1]) if all(u < self.n for u in key[1]) else None
+        if t == 'ruids':
+            return list(key[1]) if all(0 <= u < self.n for u in key[1]) else None
         if t == 'int':
             i = key[1]
             return [self.active[i]] if -len(self.active) <= i < len(self.active) else 'index-error'
@@ -731,6 +892,9 @@ class Ref:
             if key[3] == 0: return 'value-error'
             return self.active[slice(key[1], key[2], key[3])]
         if t == 'bool':
+            e = key[1]
+            if e[0] in ('arith', 'aritharr') or (e[0] == 'arr' and self.specs[e[1]]['type'] not in ('bool', 'state')):
+                return [] if not self.active else 'ambiguous'      # an Arr that is not a BoolArr is not an accepted key
             try:
                 v = self.expr(key[1])
             except BoolOp:
@@ -783,6 +947,16 @@ def oracle_step(w, ref, op, obs):
                 bad('grow-default', f'{nm}: new agents {new} received {got}, declared default gives {exp}', array_type=ref.specs[nm]['type'], default=d[0])
             for u in new: mp[u] = raw[u]
         ref.n += k; ref.active += new
+        return out
+    if o == 'copy':
+        if obs['st'] != 'ok':
+            bad('copy', f"deep-copying the sim raised {obs['st']} {obs.get('msg')}"); return out
+        st = obs['state']
+        if st['au'] != ref.active or st['n'] != ref.n: bad('copy', f"a deep copy of the sim has active ids {st['au']} / {st['n']} ids, the original {ref.active} / {ref.n}")
+        for nm in ref.order:
+            raw = st['arrays'][nm][2]
+            diff = [u for u in range(ref.n) if raw[u] != ref.maps[nm][u]]
+            if diff: bad('copy', f'{nm}: a deep copy of the sim holds different values at uids {diff[:5]}')
         return out
     if o == 'remove':
         if obs['st'] != 'ok':
@@ -851,7 +1025,13 @@ def oracle_step(w, ref, op, obs):
             want = dict([('value-error', 'E:Value'), ('ambiguous', 'E:Ambiguous'), ('boolop', 'E:BoolOp')])[us]
             if obs['st'] != want: bad('key-rejection', f"{nm}[{key_str(op[2])}] = … gave {obs['st']}, expected {want}", key=t)
             resync(); return out
+        ty = ref.specs[nm]['type']
         vals = [tok(rhs[1])] * len(us) if rhs[0] == 'scalar' else [tok(v) for v in rhs[1]]
+        vals = [cast_tok(ty, v) for v in vals]
+        if any(v is None for v in vals) or (rhs[0] == 'scalar' and cast_tok(ty, tok(rhs[1])) is None):
+            # NaN into an integer array: NumPy refuses
+            if obs['st'] == 'ok': bad('set-cast', f'{nm}[{key_str(op[2])}] = nan was accepted by an integer array')
+            resync(); return out
         if rhs[0] == 'list' and len(vals) == 1: vals = vals * len(us)
         if len(vals) != len(us):
             if obs['st'] == 'ok': bad('set', f'{nm}[{key_str(op[2])}] accepted {len(vals)} values for {len(us)} agents')
@@ -884,6 +1064,57 @@ def oracle_step(w, ref, op, obs):
         if sorted(obs['true'] + obs['false']) != sorted(ref.active) or set(obs['true']) & set(obs['false']):
             bad('partition', f"{expr_str(op[1])}: true() ∪ false() = {sorted(obs['true'] + obs['false'])} is not a partition of the active ids {ref.active}")
         return out
+    if o in ('notnanvals', 'iter'):
+        nm = op[1]
+        if obs['st'] != 'ok':
+            bad('view', f"{o} of {nm} raised {obs['st']} {obs.get('msg')}"); return out
+        exp = [v for v in ref.vals(nm) if not (o == 'notnanvals' and v == 'nan')]
+        if obs['vals'] != exp: bad('active-values', f"{nm}.{o if o == 'notnanvals' else '__iter__'} = {obs['vals']} but the active agents hold {exp}", view=o)
+        if o == 'iter':
+            for v, has in zip(op[3], obs['has']):
+                if has != (tok(v) in [cast_tok('float', x) if ref.specs[nm]['type'] == 'float' else x for x in ref.vals(nm)]) and ref.specs[nm]['type'] != 'float':
+                    bad('active-values', f"({v} in {nm}) = {has} but the active values are {ref.vals(nm)}", view='contains')
+        return out
+    if o == 'split':
+        try:
+            exp = ref.expr(op[1])
+        except BoolOp:
+            if obs['st'] != 'E:BoolOp': bad('logic-nonbool', f"{expr_str(op[1])} on a non-Boolean array gave {obs['st']}")
+            return out
+        if obs['st'] != 'ok':
+            bad('view', f"{expr_str(op[1])}.split() raised {obs['st']} {obs.get('msg')}"); return out
+        t = [u for u, x in zip(ref.active, exp) if truthy(x)]; f = [u for u, x in zip(ref.active, exp) if not truthy(x)]
+        if obs['true'] != t or obs['false'] != f:
+            bad('true-false', f"{expr_str(op[1])}.split() = ({obs['true']}, {obs['false']}), reference ({t}, {f})", site='BoolArr.split')
+        if obs['conv'] != t: bad('true-false', f"ss.uids({expr_str(op[1])}) = {obs['conv']}, reference {t}", site='uids.__new__')
+        return out
+    if o == 'setnan':
+        nm = op[1]
+        if not all(u < ref.n for u in op[2]):
+            if obs['st'] == 'ok':
+                raw = obs['arr'][2]
+                for u in range(ref.n): ref.maps[nm][u] = raw[u]
+            return out
+        if obs['st'] != 'ok':
+            bad('set', f"{nm}.set_nan({op[2]}) raised {obs['st']}"); return out
+        ty = ref.specs[nm]['type']
+        nanv = {'float': 'nan', 'int': '-9', 'index': '-1', 'bool': 'F', 'state': 'F'}[ty]
+        for u in op[2]: ref.maps[nm][u] = nanv
+        raw = obs['arr'][2]
+        diff = [u for u in range(ref.n) if raw[u] != ref.maps[nm][u]]
+        if diff: bad('set', f"after {nm}.set_nan({op[2]}) the array differs from the reference at uids {diff[:5]}")
+        return out
+    if o == 'usetb':
+        try:
+            exp = ref.expr(op[3])
+        except BoolOp:
+            if obs['st'] != 'E:BoolOp': bad('logic-nonbool', f"{expr_str(op[3])} on a non-Boolean array gave {obs['st']}")
+            return out
+        b = [u for u, x in zip(ref.active, exp) if truthy(x)]; a = op[2]; f = op[1]
+        want = dict(remove=lambda: sorted(set(a) - set(b)), intersect=lambda: sorted(set(a) & set(b)), union=lambda: sorted(set(a) | set(b)), xor=lambda: sorted(set(a) ^ set(b)))[f]()
+        if obs['st'] != 'ok' or obs['uids'] != want or obs['cls'] != 'uids':
+            bad('uid-algebra', f"uids({a}).{f}({expr_str(op[3])}) = {obs.get('uids')} ({obs.get('cls', obs['st'])}), set algebra with the true uids {b} gives {want}", op=f)
+        return out
     if o == 'reduce':
         nm = op[1]
         if obs['st'] != 'ok':
@@ -892,6 +1123,10 @@ def oracle_step(w, ref, op, obs):
         exp = dict(len=len(v), nplen=len(v), count=sum(truthy(x) for x in v), npcount=sum(truthy(x) for x in v), any=int(any(truthy(x) for x in v)), all=int(all(truthy(x) for x in v)))
         for k, e in exp.items():
             if obs[k] != e: bad('reduce', f'{nm}: {k} = {obs[k]}, reference over the active agents {e}', reduction=k)
+        for a, b in (('npsum', 'sum'), ('addreduce', 'sum'), ('npmin', 'min'), ('npmax', 'max')):
+            same = obs[a] == obs[b] or (not obs[a].startswith('<') and num_of(obs[a]) is not None and num_of(obs[a]) == num_of(obs[b]))
+            if not same:
+                bad('reduce', f'{nm}: NumPy-level {a} = {obs[a]} but the method gives {obs[b]}', reduction=a, array_type=ref.specs[nm]['type'])
         def chk(k, e):
             a = num_of(obs[k])
             if e is None:
@@ -935,7 +1170,51 @@ def oracle_case(case, collect=None):
         obs = w.exec(op)
         fails += oracle_step(w, ref, op, obs)
     fails += oracle_parent(w)
+    fails += oracle_views(w, std_exprs(w))[0]
     return fails
+
+
+def std_exprs(w):
+    """ derived arrays every view oracle also looks at: a comparison, an isnan and an inversion per registered array """
+    ex = []
+    for nm in w.order:
+        t = w.specs[nm]['type']
+        if t == 'index': continue
+        ex.append(['isnan', nm])
+        if t in ('bool', 'state'): ex.append(['not', nm])
+        else: ex.append(['cmp', nm, 'ge', 0])
+    return ex
+
+
+FIXED_SCENARIOS = [
+    # removed agents keep truthy / non-NaN values; spare capacity exists; every view and key kind is read afterwards
+    dict(n0=6, seed=3, arrays=[dict(name='f0', type='float', default=['affine', 1.0, 0.5]), dict(name='b1', type='bool', default=['const', True]),
+                              dict(name='s2', type='state', default=['const', False]), dict(name='i3', type='int', default=['const', 3]),
+                              dict(name='f4', type='float', default=['unset'])],
+         ops=[['set', 'f4', ['uids', [1, 2, 4]], ['list', [2.5, 'nan', -1.0]]], ['set', 's2', ['uids', [1, 4, 5]], ['scalar', True]],
+              ['remove', [1, 4]], ['grow', 1], ['remove', [6]],
+              ['reduce', 'f0'], ['reduce', 'b1'], ['reduce', 'i3'], ['reduce', 'f4'], ['notnanvals', 'f4'], ['notnanvals', 'f0'],
+              ['split', ['arr', 'b1']], ['split', ['arr', 's2']], ['split', ['cmp', 'f0', 'gt', 2.0]], ['split', ['isnan', 'f4']],
+              ['iter', 'f0', 'iter', [1.5, 3.0]], ['iter', 'i3', 'iter', [3, 4]],
+              ['view', ['isnan', 'f4']], ['view', ['notnan', 'f4']], ['view', ['isnan', 'i3']], ['view', ['notnan', 'b1']],
+              ['view', ['arith', 'f0', 'mul', 2, 'op']], ['view', ['arith', 'i3', 'add', 1, 'np']], ['view', ['aritharr', 'f0', 'sub', 'f0']],
+              ['view', ['cmparith', 'f0', 'add', 1.0, 'gt', 3.0]],
+              ['get', 'f0', ['slice', None, None, None]], ['get', 'f0', ['slice', 1, None, 2]], ['get', 'f0', ['bool', ['arr', 'b1']]],
+              ['get', 'f0', ['uids', [0, 1, 5]]], ['get', 'f0', ['ruids', [0, 2]]], ['get', 'f0', ['index', 'uid']], ['get', 'f0', ['empty', 'list']],
+              ['get', 'f0', ['bad', 'list']], ['get', 'f0', ['int', 0, 'py']],
+              ['set', 'b1', ['uids', [0, 2]], ['list', [0.0, 2.5]]], ['set', 'i3', ['uids', [0, 2]], ['list', [2.5, -2.5]]], ['set', 'i3', ['uids', [0]], ['scalar', 'nan']],
+              ['set', 'f0', ['uids', [0, 0]], ['list', [1.0, 2.0]]], ['set', 'f0', ['bool', ['not', 'b1']], ['scalar', True]],
+              ['usetb', 'remove', [0, 1, 1, 2, 5, 5], ['arr', 'b1'], 'op'], ['usetb', 'intersect', [], ['arr', 's2'], 'method'],
+              ['usetb', 'xor', [0, 0, 3], ['cmp', 'f0', 'gt', 2.0], 'op'], ['usetb', 'union', [4, 4], ['arr', 's2'], 'method'],
+              ['uset', 'intersect', [], [3, 3, 5], 'op'], ['uset', 'remove', [3, 3, 5, 1], [5], 'method'], ['uset', 'xor', [2, 2, 1], [1, 7, 7], 'op'],
+              ['uset', 'union', [9, 1, 1], [], 'method'], ['uset', 'unique', [4, 4, 0], [], 'method'], ['ucat', [[], [2, 2], []], 'args'],
+              ['grow', 4], ['setnan', 'f0', [0, 7]], ['reduce', 'f0'], ['view', ['cmparr', 'f0', 'ge', 'f4']],
+              ['copy'], ['grow', 2], ['grow', 9], ['reduce', 'f4'], ['view', ['isnan', 'f4']]]),
+    # nobody active at all; then regrowth
+    dict(n0=2, seed=4, arrays=[dict(name='f0', type='float', default=['const', 1.5]), dict(name='b1', type='bool', default=['unset'])],
+         ops=[['remove', [0, 1]], ['reduce', 'f0'], ['notnanvals', 'f0'], ['split', ['arr', 'b1']], ['iter', 'f0', 'iter', [1.5]], ['view', ['isnan', 'f0']],
+              ['get', 'f0', ['slice', None, None, None]], ['grow', 3], ['reduce', 'f0'], ['split', ['cmp', 'f0', 'gt', 1.0]], ['view', ['arith', 'f0', 'add', 0.25, 'rop']]]),
+]
 
 
 def oracle_parent(w):
@@ -954,6 +1233,93 @@ def oracle_parent(w):
             out.append((dict(oracle='active-view', array=f'people.{nm}'),
                         f'people.{nm} is not restricted to the active agents: len={ln}, len(values)={lv}, active agents={na} (uid space {int(p.uid.len_used)}, storage {int(p.uid.len_tot)})'))
     return out
+
+
+
+# ---------------------------------------------------------------------------
+# generic oracles over the whole public view surface of the array classes (no list of methods to keep up to date)
+
+MUTATORS = {'set', 'set_nan', 'grow', 'link_people', 'init_vals', 'update', 'disp', 'convert', 'asnew', 'to_json', 'auids'}
+
+
+def view_names(a):
+    """ public zero-argument methods / properties defined by the starsim array classes for this object """
+    import inspect, starsim as ss
+    owners = [c for c in type(a).__mro__ if c.__module__ == ss.arrays.__name__]
+    names = []
+    for n in sorted({k for c in owners for k in c.__dict__ if not k.startswith('_')} - MUTATORS):
+        attr = inspect.getattr_static(type(a), n, None)
+        if isinstance(attr, property):
+            names.append(n)
+        elif callable(attr):
+            try:
+                pars = [q for q in inspect.signature(attr).parameters.values() if q.default is inspect._empty and q.kind in (q.POSITIONAL_ONLY, q.POSITIONAL_OR_KEYWORD)]
+            except (TypeError, ValueError):
+                continue
+            if len(pars) == 1: names.append(n)
+    return names
+
+
+def canon_result(r):
+    import starsim as ss
+    if isinstance(r, tuple): return ('tuple',) + tuple(canon_result(x) for x in r)
+    if isinstance(r, ss.uids): return ('uids', tuple(int(u) for u in r))
+    if isinstance(r, ss.Arr): return ('arr', tuple(cv(x) for x in r.values), tuple(int(u) for u in r.true()))
+    if isinstance(r, np.ndarray): return ('nd', tuple(cv(x) for x in r.reshape(-1)))
+    if np.isscalar(r) or isinstance(r, (bool, int, float)): return ('scalar', cv(r))
+    return ('other', type(r).__name__)
+
+
+def uid_parts(c):
+    if c[0] == 'uids': yield c[1]
+    elif c[0] == 'tuple':
+        for x in c[1:]: yield from uid_parts(x)
+    elif c[0] == 'arr': yield c[2]
+
+
+def oracle_views(w, extra_exprs=()):
+    """ Every public view of every array (a) must not depend on what is stored at inactive positions (removed agents,
+        spare capacity) and (b) may only report active identifiers.  Re-derives "restricted to the active agents" from
+        observed behaviour for whatever views the classes define. """
+    import starsim as ss
+    out = []
+    p = w.people
+    au = np.asarray(p.auids, dtype=np.int64)
+    act = set(int(u) for u in au)
+    targets = [(nm, w.arrs[nm]) for nm in w.order]
+    for e in extra_exprs:
+        try: targets.append((expr_str(e), w.expr(e)))
+        except Exception: pass
+    seen = set()
+    for nm, a in targets:
+        raw = a.raw
+        mask = np.ones(len(raw), dtype=bool); mask[au[au < len(raw)]] = False
+        if nm in ('uid', 'slot') : continue           # scrambling the uid/slot bookkeeping itself would break the harness
+        for vn in view_names(a):
+            seen.add(f'{type(a).__name__}.{vn}')
+            def call():
+                r = getattr(a, vn)
+                return canon_result(r() if callable(r) and not isinstance(r, (np.ndarray, ss.Arr)) else r)
+            try:
+                before = call()
+            except Exception as e:
+                out.append((dict(oracle='view-raises', view=vn), f'{nm}.{vn} raised {type(e).__name__}: {e}')); continue
+            for us in uid_parts(before):
+                stray = [u for u in us if u not in act]
+                if stray:
+                    out.append((dict(oracle='inactive-uid-reported', view=vn), f'{nm}.{vn} reports identifiers {stray[:6]} that are not active (active: {sorted(act)[:12]}…)'))
+            if not mask.any(): continue
+            saved = raw[mask].copy()
+            try:
+                if raw.dtype == bool: raw[mask] = ~saved
+                elif raw.dtype.kind == 'f': raw[mask] = np.where(np.isnan(saved), 7.75, np.nan).astype(raw.dtype)
+                else: raw[mask] = saved + 1000
+                after = call()
+            finally:
+                raw[mask] = saved
+            if after != before:
+                out.append((dict(oracle='inactive-sensitive', view=vn), f'{nm}.{vn} changes when only the storage of inactive agents / spare capacity changes: {str(before)[:120]} -> {str(after)[:120]}'))
+    return out, sorted(seen)
 
 
 def search(ctx):
@@ -983,9 +1349,20 @@ def search(ctx):
             known = any(kf['kind'] == 'finding' and sig_match(kf['signature'], sig) for kf in ctx.known)
             data = dict(kind='opseq', case=case if known else shrink_to(case, sig))
             ctx.fail(sig, what, data)
+        vf, seen = oracle_views(w, std_exprs(w))
+        ctx.notes.setdefault('views_checked', [])
+        ctx.notes['views_checked'] = sorted(set(ctx.notes['views_checked']) | set(seen))
+        for sig, what in vf:
+            ctx.fail(sig, what, dict(kind='opseq', case=dict(case, ops=[o for o in case['ops'] if o[0] in ('grow', 'remove', 'set', 'setnan')])))
         if k % 10 == 0:
             for sig, what in oracle_parent(w):
                 ctx.fail(sig, what, dict(kind='opseq', case=dict(case, ops=[o for o in case['ops'] if o[0] in ('grow', 'remove')])))
+    # fixed scenario families: exercised on every run whatever the seed
+    for sc in FIXED_SCENARIOS:
+        case = dict(sc, ops=[list(o) for o in sc['ops']])
+        for sig, what in oracle_case(case):
+            ctx.fail(sig, what, dict(kind='opseq', case=case))
+        ctx.count('fixed_scenarios')
     # the stored witnesses of the known findings are replayed on every run
     for kf in ctx.known:
         if kf.get('replay'):
